@@ -180,8 +180,8 @@ def write_cfg(path, constants, spec="Spec", invariants=(), properties=(), constr
 def tlc(ctx, module, cfg_path, workers=8, timeout=900, env=None, simulate=None, dfs=False,
         xmx="8g", extra_args=()):
     """Run TLC on specs/<module>.tla with the given cfg, in a scratch dir."""
-    d = ctx.path(f"tlc-{module}-{int(time.time()*1000)%100000000}")
-    os.makedirs(d)
+    import tempfile
+    d = tempfile.mkdtemp(prefix=f"tlc-{module}-", dir=ctx.work)
     for fn in os.listdir(SPECS):
         if fn.endswith(".tla"):
             shutil.copy(os.path.join(SPECS, fn), d)
